@@ -275,9 +275,9 @@ def locate_failure(logtext):
 # ----------------------------------------------------------------------------------------------
 # correspondence
 
-def run_h(args, timeout=3000, inp=None, race=False):
+def run_h(args, timeout=3000, inp=None, race=False, cwd=None):
     exe = os.path.join(BIN, "h-race" if race else "h")
-    return sh([exe] + args, cwd=BUILD, timeout=timeout, inp=inp)
+    return sh([exe] + args, cwd=cwd or BUILD, timeout=timeout, inp=inp)
 
 
 def run_model(stream, infile, outfile, timeout=3000):
